@@ -89,6 +89,9 @@ type vqStep struct {
 	St   *vqStmt    `json:"st,omitempty"`
 	Res  []vqSeries `json:"res,omitempty"`
 	Dev3 []vqSeries `json:"dev3,omitempty"` // SLIMIT statements: what "SLIMIT applied per shard" gives with 1 h shards
+	// first("s"): the model's answers when s is a boolean field (BooleanFirstReduce breaks ties towards false)
+	Resb  []vqSeries `json:"resb,omitempty"`
+	Dev3b []vqSeries `json:"dev3b,omitempty"`
 	Nsel int        `json:"nsel,omitempty"`
 }
 
@@ -327,7 +330,9 @@ func vqNewCluster(lay vqLayout, scratch string) (*vqCluster, error) {
 		}
 		nd.svc = svc
 
-		nd.mx = NewMetaExecutor(30*time.Second, 10*time.Second, time.Minute, 10)
+		// generous timeouts, no idle pruning: transport faults (and what the fan-out makes of them) are C05's
+		// subject; a deadline that expires on an oversubscribed machine must not look like a wrong answer here
+		nd.mx = NewMetaExecutor(15*time.Minute, 2*time.Minute, 0, 10)
 		nd.mx.MetaClient = nd.mc
 		nd.exec = query.NewExecutor()
 		nd.exec.StatementExecutor = &StatementExecutor{
@@ -1014,6 +1019,15 @@ func TestVerifQueryReplay(t *testing.T) {
 		in.MaxSigs = 4
 	}
 	scratch := vtrace.Env("VERIF_SCRATCH", os.TempDir())
+	for bi := range in.Behaviours {
+		b := &in.Behaviours[bi]
+		for i := range b.Steps {
+			st := &b.Steps[i]
+			if st.A == "query" && b.SType == "bool" && st.St.Fn == "first" && st.St.Field == "s" {
+				st.Res, st.Dev3 = st.Resb, st.Dev3b
+			}
+		}
+	}
 
 	type layoutRun struct {
 		answers []map[int][]vqAnswer
@@ -1071,6 +1085,19 @@ func TestVerifQueryReplay(t *testing.T) {
 	for li, r := range runs {
 		if r.err != nil {
 			t.Fatalf("layout %s: %v", in.Layouts[li].Name, r.err)
+		}
+	}
+
+	// a query that did not finish within its watchdog is an infrastructure failure, never a verdict
+	for li := range runs {
+		for _, m := range runs[li].answers {
+			for _, as := range m {
+				for _, a := range as {
+					if strings.HasPrefix(a.res.Err, "watchdog:") {
+						t.Fatalf("layout %s node %d: %s", in.Layouts[li].Name, a.node, a.res.Err)
+					}
+				}
+			}
 		}
 	}
 
